@@ -184,8 +184,22 @@ def check_view_index_bounded(ctx, rule, fns):
                             r = x.children[1].strip()
                             if r.kind == "CXXMemberCallExpr" and r.callee and r.callee["n"] == "size" and canon(r.child("obj")) == view:
                                 ok = True
+            why = "dominated by index < size()"
+            if not ok:
+                # any other way of writing it (the size in a local, `i != size` for a counter that starts below it,
+                # an index copied around): relational bounds with L = size() of that view
+                from .relbounds import RelBounds
+                from . import rules_atomic as RA
+
+                def is_len(x, view=view, f=f):
+                    x = std_unwrap(RA.resolve_local(f, std_unwrap(x)))
+                    return x.kind == "CXXMemberCallExpr" and x.callee is not None and x.callee["n"] == "size" \
+                        and x.child("obj") is not None and canon(x.child("obj")) == view
+                rb = RelBounds(f, is_len).run()
+                r_ok, r_why = rb.index_ok(n, n.args[1])
+                ok, why = bool(r_ok), "%s, L = size() of that view (relational bounds analysis)" % r_why
             ctx.inst(rule, "%s: view[%s] #%d" % (f.sig, idx.split("#")[0], i + 1), ok, n.loc,
-                     "subscript %s of %s dominated by index < size(): %s" % (idx, view.split("#")[0], ok), f)
+                     "subscript %s of %s: %s" % (idx, view.split("#")[0], why), f)
 
 
 def check_cmdline_api_only(ctx, rule, unit):
@@ -922,41 +936,51 @@ def check_float_lengths(ctx, unit, rule="B6.float-length"):
 
 
 def check_sized_text(ctx, unit, rule="T.sized-text-complete"):
-    """A formatter that receives text together with its length (string, string_view) hands the sink that length: it never
-    passes <text>.data() to a callee without <text>.size() in the same call (a C-string append rediscovers the length with
-    strlen: the text is cut at an embedded NUL and a default-constructed string hands over a null pointer)."""
+    """Code that holds text together with its length (a string, a string_view: a parameter, a member such as fmt_impl::fmt)
+    hands the sink that length: it never passes <text>.data() (possibly offset) to a callee without a length derived from
+    <text>.size() in the same call (a C-string append rediscovers the length with strlen: the text is cut at an embedded NUL,
+    a view that is not NUL-terminated is overrun, and a default-constructed string hands over a null pointer)."""
     ctx.rule(rule, "formatters of sized text (string, string_view) never drop the length: <text>.data() is passed on only "
              "together with <text>.size()", 2)
     seen = set()
+    TEXT = ("frg::basic_string_view", "frg::basic_string")
     for f in unit.functions:
-        if not f.uq.startswith("frg::") or f.name not in ("format_object", "format"):
+        if not f.uq.startswith("frg::") or f.get("lambda"):
             continue
         sized = [p_ for p_ in f.params() if "string" in p_["t"] and "fmt_impl" not in p_["t"]]
-        if not sized:
+        datas = [n for n in f.events() if n.kind == "CXXMemberCallExpr" and n.callee and n.callee["n"] == "data"
+                 and (n.callee.get("cls") or "") in TEXT]
+        if not ((sized and f.name in ("format_object", "format")) or datas):
             continue
-        label = "%s(%s)" % (f.uq, sized[0]["t"])
+        label = "%s(%s)" % (f.uq, ", ".join(p_["t"] for p_ in f.params())[:90])
         if label in seen:
             continue
         seen.add(label)
         bad = None
         for c in f.all_nodes():
-            if not c.is_call():
+            if not c.is_call() or c.d.get("inlined"):
+                continue
+            if c.callee and c.callee["n"] in ("data", "size") and c.kind == "CXXMemberCallExpr":
                 continue
             args = c.args
-            for a in args:
-                au = std_unwrap(a)
-                if au.kind == "CXXMemberCallExpr" and au.callee and au.callee["n"] == "data":
-                    base = au.child("obj")
-                    base = std_unwrap(base) if base is not None else None
-                    if base is None or base.kind != "DeclRefExpr" or base.d["d"] != sized[0]["d"]:
-                        continue
-                    with_len = any(y.kind == "CXXMemberCallExpr" and y.callee and y.callee["n"] == "size"
-                                   for b in args if b is not a for y in b.walk())
-                    if not with_len:
-                        bad = c
-        ctx.inst(rule, label, bad is None, (bad or f).loc,
-                 ("%s.data() is passed to %s without its length: the callee rediscovers it as a C string" %
-                  (sized[0]["n"], bad.callee["n"] if bad.callee else "a callee")) if bad else "length travels with the characters", f)
+            pts = (c.callee or {}).get("ptypes", [])
+            for k_, a in enumerate(args):
+                ds = [y for y in a.walk() if y.kind == "CXXMemberCallExpr" and y.callee and y.callee["n"] == "data"
+                      and (y.callee.get("cls") or "") in TEXT and not any(
+                          z.is_call() and z is not y and z.id != y.id and y.id in [w.id for w in z.walk()] for z in a.walk() if z.id != a.id)]
+                if not ds:
+                    continue
+                # a pointer parameter receives it (not e.g. a comparison of the pointer)
+                pt = pts[k_ - (len(args) - len(pts))] if pts and 0 <= k_ - (len(args) - len(pts)) < len(pts) else ""
+                if pts and "*" not in pt:
+                    continue
+                with_len = any(y.kind == "CXXMemberCallExpr" and y.callee and y.callee["n"] == "size"
+                               for b in args if b is not a for y in b.walk())
+                if not with_len:
+                    bad = (c, ds[0])
+        ctx.inst(rule, label, bad is None, (bad[0] if bad else f).loc,
+                 ("%s is passed to %s without a length: the callee rediscovers it as a C string" %
+                  (canon(bad[1]).split("#")[0][:60], bad[0].callee["n"] if bad[0].callee else "a callee")) if bad else "length travels with the characters", f)
 
 
 def check_digits_length(ctx, unit, rule="B6.digits-length"):
